@@ -132,6 +132,87 @@ func RunC07(c *engine.Ctx) {
 			}
 		}
 	}
+	// dense usage sweep: every usage 0..8192 and around every power of two, one key, two data lengths
+	// (the key derivation folds the usage number; carries in the fold depend on its bit pattern)
+	for _, ct := range cksumTypes {
+		et, _ := rcrypto.EtypeForCksum(ct)
+		g, err := crypto.GetChksumEtype(ct)
+		if err != nil {
+			continue
+		}
+		key := keys(et, 1, c.Seed+3)[0]
+		var dense []uint32
+		for u := uint32(0); u <= 8192; u++ {
+			dense = append(dense, u)
+		}
+		for k := uint(13); k < 32; k++ {
+			dense = append(dense, 1<<k-1, 1<<k, 1<<k+1, 1<<k+255)
+		}
+		dense = append(dense, 0xffffffff, 0xfffffffe, 0x7fffffff, 0x00ff00ff, 0xff00ff00, 0x0000ffff, 0xffff0000)
+		for _, l := range []int{0, 33} {
+			data := randBytes(r, l)
+			for _, u := range dense {
+				cs := c07case{Cksum: ct, Len: l, Usage: u, Key: hex.EncodeToString(key), Data: hex.EncodeToString(data), What: "dense-usage-sweep"}
+				var got []byte
+				var gerr error
+				if pn := safely(func() { got, gerr = g.GetChecksumHash(key, append([]byte{}, data...), u) }); pn != "" {
+					c.Violate("value", fmt.Sprintf("value:ck%d:panic", ct), map[string]interface{}{"panic": pn}, cs)
+					continue
+				}
+				evals++
+				want, _ := rcrypto.Checksum(et, key, u, data)
+				if gerr != nil || !bytes.Equal(got, want) {
+					c.Violate("value", fmt.Sprintf("value:ck%d:differs-from-rfc:dense-usage", ct), map[string]interface{}{"got": hex.EncodeToString(got), "want": hex.EncodeToString(want), "err": fmt.Sprint(gerr)}, cs)
+					continue
+				}
+				if !g.VerifyChecksum(key, data, want, u) {
+					c.Violate("verify", fmt.Sprintf("verify:ck%d:rejects-correct", ct), nil, cs)
+				}
+			}
+		}
+		c.Distinct(fmt.Sprintf("dense/%d", ct))
+	}
+	// keys of the wrong length and degenerate checksums: verification must say no (and not panic), whatever
+	// goes wrong inside (a key-derivation error must not fall through to "equal")
+	for _, ct := range cksumTypes {
+		et, _ := rcrypto.EtypeForCksum(ct)
+		g, err := crypto.GetChksumEtype(ct)
+		if err != nil {
+			continue
+		}
+		p, _ := rcrypto.Get(et)
+		data := randBytes(r, 20)
+		good, _ := rcrypto.Checksum(et, keys(et, 1, c.Seed)[0], 7, data)
+		for _, kl := range []int{0, 1, 8, 15, 16, 17, 24, 31, 32, 33, 64} {
+			if kl == p.KeyLen {
+				continue
+			}
+			key := randBytes(r, kl)
+			for _, ck := range [][]byte{nil, {}, {0}, make([]byte, p.CksumLen), good, good[:len(good)/2]} {
+				cs := c07case{Cksum: ct, Len: 20, Usage: 7, Key: hex.EncodeToString(key), Data: hex.EncodeToString(data), What: fmt.Sprintf("key-of-%d-bytes-checksum-of-%d-bytes", kl, len(ck))}
+				var ok bool
+				evals++
+				if pn := safely(func() { ok = g.VerifyChecksum(key, data, ck, 7) }); pn != "" {
+					// a panic on a key of impossible length is C04's business (keys are not outside input); not judged here
+					continue
+				}
+				if ok {
+					// the reference cannot even derive a key of this length: nothing can be a valid checksum
+					c.Violate("verify", fmt.Sprintf("verify:ck%d:accepts-with-key-of-wrong-length", ct), map[string]interface{}{"checksum": hex.EncodeToString(ck)}, cs)
+				}
+			}
+		}
+		// the right key and an empty / nil checksum
+		key := keys(et, 1, c.Seed)[0]
+		for _, ck := range [][]byte{nil, {}} {
+			evals++
+			var ok bool
+			safely(func() { ok = g.VerifyChecksum(key, data, ck, 7) })
+			if ok {
+				c.Violate("verify", fmt.Sprintf("verify:ck%d:accepts-empty-checksum", ct), nil, c07case{Cksum: ct, Len: 20, Usage: 7, Key: hex.EncodeToString(key), Data: hex.EncodeToString(data), What: "empty-checksum"})
+			}
+		}
+	}
 	// histories with one key buffer overwritten in place between calls (A, B, A, ...): no state may be carried by reference
 	for _, ct := range cksumTypes {
 		et, _ := rcrypto.EtypeForCksum(ct)
